@@ -552,6 +552,15 @@ impl EffectiveAuthority {
             {
                 continue;
             }
+            // The ceiling an allow carries bounds what it reaches, exactly as a
+            // Grant's does in `candidate_matches`: an allow statement written
+            // with `max_classification: internal` must not admit a secret
+            // element. A deny has no ceiling — its constraints mean nothing.
+            if !resource.is_space_scope()
+                && !reaches_classification(&statement.constraints, &resource)
+            {
+                continue;
+            }
             obligations = obligations.merge(&statement.obligations);
             allows.push(Candidate {
                 id: format!("policy:{policy_id}@{policy_version}"),
